@@ -307,6 +307,13 @@ def gen_case(prop, tier, seed, stream, k):
         if stream in ("knife", "knife-x") and rnd.random() < 0.6:
             cfg["entry"] = rnd.choice(["exact-primal", "exact-dual"])
             cfg["maxit"] = None
+        if stream == "flips":
+            # bound flips happen in the long-step ratio test of the rational dual simplex; scaling (a first solve on a scaled copy,
+            # then a restart that recomputes the basic solution) repairs some of what goes wrong there, so it is mostly off
+            cfg["entry"] = "opt_dual" if rnd.random() < 0.8 else rnd.choice(["opt_primal", "exact-dual"])
+            cfg["scaling"] = 0 if rnd.random() < 0.75 else 1
+            cfg["maxit"] = None
+            cfg["basis"] = "none"
         if stream == "big":
             cfg["entry"] = rnd.choice(["exact-primal", "exact-primal", "exact-dual", "exact-dual", "opt_primal", "opt_dual"])
             cfg["maxit"] = None
@@ -361,6 +368,7 @@ def plan(prop, tier):
         P.append(("knife", 450 if q else 12000))
         P.append(("knife-x", 40 if q else 1500))
         P.append(("boxed", 120 if q else 5000))
+        P.append(("flips", 200 if q else 8000))
         P.append(("medium", 8 if q else 300))
         P.append(("big", 24 if q else 800))
         return P
